@@ -1,11 +1,19 @@
 #[cfg(test)]
 use portable_atomic::{AtomicBool, Ordering};
 use std::borrow::Cow;
+#[cfg(not(indicatif_verif))]
 use std::sync::{Arc, Condvar, Mutex, MutexGuard, Weak};
+#[cfg(indicatif_verif)]
+use std::sync::{Arc, Weak};
 use std::time::Duration;
 #[cfg(not(target_arch = "wasm32"))]
 use std::time::Instant;
+#[cfg(indicatif_verif)]
+use std::{fmt, io};
+#[cfg(not(indicatif_verif))]
 use std::{fmt, io, thread};
+#[cfg(indicatif_verif)]
+use verif_sync::{thread, Condvar, Mutex, MutexGuard};
 
 #[cfg(test)]
 use once_cell::sync::Lazy;
